@@ -564,18 +564,82 @@ def e3_bases(tier):
         dict(solver="MinLeakageIASolver", K=3, Nr=[2, 2, 2], Nt=[2, 2, 2], Ns=1, init="closed_form", n=2,
              P0=1.0, noise=None),
     ]
+    if tier != "thorough":
+        # quick: one base per solver class + the multi-stream closed form (AltMin: the Ns=3 base)
+        return [dict(x, part="E3", s=0) for i, x in enumerate(b) if i != 1]
     out = [dict(x, part="E3", s=0) for x in b]
-    if tier == "thorough":
-        out += [dict(x, part="E3", s=1) for x in b[:4]]      # second channel member: small bases
+    out += [dict(x, part="E3", s=1) for x in b[:4]]      # second channel member: small bases
     return out
 
 
 READS = ("full_F", "full_W_H", "full_W", "W", "W_H")
-EVENTS = ([("read", r) for r in READS] +
-          [("P", 2.0), ("P", 1e-10), ("P", 1e6), ("P", "vec"), ("P", None),
-           ("setF", "array"), ("setF", "list"), ("setFF_P", "array"),
-           ("setWH", "array"), ("setWH", "list"), ("setW", "array"),
-           ("randF", 5), ("solve", 0)])
+# channel-side events: the solver is NOT told; they matter at the next solve / solver setter
+CHAN_EVENTS_QUICK = [("chan", "init", 1), ("chan", "rand", 11), ("chan", "pl", "mat"), ("chan", "noise", 0.2)]
+EVENTS_QUICK = ([("read", r) for r in READS] +
+                [("P", 1e-10), ("P", 1e6), ("P", "vec"), ("P", None),
+                 ("setF", "array"), ("setF", "list"), ("setFF_P", "array"), ("setFF_P", "mutate_after"),
+                 ("setWH", "array"), ("setW", "array"),
+                 ("randF", 5), ("solve", 0)] + CHAN_EVENTS_QUICK)
+EVENTS = EVENTS_QUICK + [("P", 2.0), ("setWH", "list"), ("chan", "pl", None)]      # thorough
+
+
+def events(tier):
+    return EVENTS if tier == "thorough" else EVENTS_QUICK
+
+
+PLM = ((0.5, 1e-2, 1e-1), (1e-3, 0.2, 1e-2), (1e-1, 1e-3, 1.0))      # linear path loss, decades apart
+
+
+class InputMutated(Exception):
+    """a caller-owned input (or the channel's matrices) was modified by the library"""
+
+    def __init__(self, what):
+        Exception.__init__(self, what)
+        self.what = what
+
+
+def _unchanged(what, passed, pristine):
+    for a, b in zip(passed, pristine):
+        if not (np.shape(a) == np.shape(b) and np.array_equal(np.asarray(a), np.asarray(b))):
+            raise InputMutated(what)
+
+
+def chan_snapshot(m):
+    pl = m.pathloss
+    return (np.array(m.big_H), None if pl is None else np.array(pl), m.noise_var,
+            np.array(m.Nr), np.array(m.Nt), m.K)
+
+
+def chan_unchanged(m, snap, what):
+    now = chan_snapshot(m)
+    for a, b in zip(now, snap):
+        if (a is None) != (b is None) or (a is not None and not np.array_equal(np.asarray(a), np.asarray(b))):
+            raise InputMutated(what)
+
+
+def apply_chan_event(m, ev, base):
+    K, Nr, Nt = base["K"], np.array(base["Nr"], dtype=int), np.array(base["Nt"], dtype=int)
+    if ev[1] == "init":
+        H2 = families.generic(int(base["s"]) + 7 * int(ev[2]), (int(Nr.sum()), int(Nt.sum())), tag=10) \
+            * float(base.get("hscale", 1.0))
+        keep = np.array(H2)
+        m.init_from_channel_matrix(H2, Nr, Nt, K)
+        _unchanged("init_from_channel_matrix(channel_matrix)", [H2], [keep])
+    elif ev[1] == "rand":
+        m.set_channel_seed(int(ev[2]) + int(base["s"]))
+        m.randomize(Nr, Nt, K)
+    elif ev[1] == "pl":
+        if ev[2] is None:
+            m.set_pathloss(None)
+        else:
+            PL = np.array([row[:K] for row in PLM[:K]], dtype=float)
+            keep = np.array(PL)
+            m.set_pathloss(PL)
+            _unchanged("set_pathloss(pathloss_matrix)", [PL], [keep])
+    elif ev[1] == "noise":
+        m.noise_var = float(ev[2])
+    else:
+        raise ValueError("unknown channel event %r" % (ev,))
 
 
 def evkind(ev):
@@ -592,6 +656,8 @@ def evkind(ev):
         return "randomizeF"
     if t == "solve":
         return "solve"
+    if t == "chan":
+        return "channel:" + str(ev[1])
     return "read"
 
 
@@ -621,7 +687,12 @@ def e3_solve(sv, base):
     if base["solver"] != "ClosedFormIASolver":
         own_rng(sv, 77 + base["s"])
     P0 = base["P0"]
-    sv.solve(base["Ns"], list(P0) if isinstance(P0, (list, tuple)) else P0)
+    Parg = list(P0) if isinstance(P0, (list, tuple)) else P0
+    snap = chan_snapshot(sv._multiUserChannel)
+    sv.solve(base["Ns"], Parg)
+    chan_unchanged(sv._multiUserChannel, snap, "solve modifies the channel object")
+    if isinstance(Parg, list):
+        _unchanged("solve(P)", [Parg], [list(P0)])
 
 
 def apply_event(sv, ev, base):
@@ -630,19 +701,44 @@ def apply_event(sv, ev, base):
     if t == "read":
         getattr(sv, ev[1])
     elif t == "P":
-        sv.P = list(PV_EVENT[:K]) if ev[1] == "vec" else ev[1]
+        if ev[1] == "vec":
+            pv = list(PV_EVENT[:K])
+            sv.P = pv
+            _unchanged("P = <list>", [pv], [list(PV_EVENT[:K])])
+            pv[0] = 99.0                      # the caller re-uses its list afterwards
+        else:
+            sv.P = ev[1]
     elif t == "setF":
         F = payload(base, "F")
-        sv.set_precoders(F=F if ev[1] == "list" else obj_array(F))
+        arg = F if ev[1] == "list" else obj_array(F)
+        sv.set_precoders(F=arg)
+        _unchanged("set_precoders(F)", list(arg), payload(base, "F"))
+        if ev[1] == "list":
+            F[0] = F[0] * 2.0                 # the caller re-uses its list afterwards
     elif t == "setFF_P":
         F = payload(base, "F")
         Pv = np.array(PV_SETFF[:K])
-        sv.set_precoders(full_F=obj_array([F[k] * math.sqrt(Pv[k]) for k in range(K)]), P=Pv)
+        X = obj_array([F[k] * math.sqrt(Pv[k]) for k in range(K)])
+        keep = [np.array(x) for x in X]
+        sv.set_precoders(full_F=X, P=Pv)
+        _unchanged("set_precoders(full_F)", list(X), keep)
+        _unchanged("set_precoders(P)", [Pv], [np.array(PV_SETFF[:K])])
+        if ev[1] == "mutate_after":           # the caller re-uses its buffers afterwards (in place)
+            X[0] *= 2.0
+            Pv *= 9.0
     elif t == "setWH":
         X = payload(base, "WH")
-        sv.set_receive_filters(W_H=X if ev[1] == "list" else obj_array(X))
+        arg = X if ev[1] == "list" else obj_array(X)
+        sv.set_receive_filters(W_H=arg)
+        _unchanged("set_receive_filters(W_H)", list(arg), payload(base, "WH"))
+        if ev[1] == "list":
+            X[0] = X[0] * 2.0
     elif t == "setW":
-        sv.set_receive_filters(W=obj_array(payload(base, "W")))
+        arg = obj_array(payload(base, "W"))
+        sv.set_receive_filters(W=arg)
+        _unchanged("set_receive_filters(W)", list(arg), payload(base, "W"))
+    elif t == "chan":
+        apply_chan_event(sv._multiUserChannel, ev, base)
     elif t == "randF":
         own_rng(sv, 500 + ev[1] + base["s"])
         sv.randomizeF(base["Ns"] if isinstance(base["Ns"], int) else list(base["Ns"]))
@@ -659,16 +755,33 @@ class E3Job:
         self.chk, self.base, self.depth = chk, base, depth
         self.K = base["K"]
         self.memo = {}          # hist -> dict(failing={view: (kind, digest)}, obs={view: digest})
-        self._fresh = None
-        m, self.H = make_channel(base["s"], base["K"], base["Nr"], base["Nt"], base["noise"],
-                                 base.get("hscale", 1.0))
-        self.hkl = blocks(self.H, base["Nr"], base["Nt"])
+        self._fresh = {}
+        self._rnd = None
+        self._heff = {}
+        self.events = events(chk.tier)
 
     # ---- real object ---------------------------------------------------
-    def new_solver(self):
+    def new_solver(self, chan=()):
+        """fresh solver bound to a fresh channel object brought to the channel state `chan`
+        (the exact sequence of channel events, replayed in order)"""
         b = self.base
         m, _ = make_channel(b["s"], b["K"], b["Nr"], b["Nt"], b["noise"], b.get("hscale", 1.0))
+        for ev in chan:
+            apply_chan_event(m, ev, b)
         return make_solver(b["solver"], m, b["init"], b["n"], b.get("best", True))
+
+    def heff(self, chan):
+        """effective channel (path loss included) of the channel state, read block by block
+        from an independent channel object; returns (block accessor, big matrix)"""
+        if chan not in self._heff:
+            b = self.base
+            m, _ = make_channel(b["s"], b["K"], b["Nr"], b["Nt"], b["noise"], b.get("hscale", 1.0))
+            for ev in chan:
+                apply_chan_event(m, ev, b)
+            K = self.K
+            big = np.block([[np.array(m.get_Hkl(k, l)) for l in range(K)] for k in range(K)])
+            self._heff[chan] = (blocks(big, b["Nr"], b["Nt"]), big)
+        return self._heff[chan]
 
     def build(self, hist):
         st = dict(solver=None, error=None, digest=None, hist=hist)
@@ -690,24 +803,26 @@ class E3Job:
         return st
 
     # ---- reference model -------------------------------------------------
-    def fresh(self):
-        """what `solve` / `randomizeF` produce on a fresh object (memoised)"""
-        if self._fresh is None:
+    def fresh(self, chan=()):
+        """what `solve` / `randomizeF` produce on a fresh object bound to a channel in the
+        state `chan` (memoised)"""
+        if chan not in self._fresh:
             K = self.K
-            sv = self.new_solver()
+            sv = self.new_solver(chan)
             e3_solve(sv, self.base)
             sol = dict(F=[np.array(x) for x in as_list(sv.F, K)],
                        WH=[np.array(x) for x in as_list(sv.W_H, K)],
                        P=np.array(sv.P, dtype=float),
                        FFx=[np.array(x) for x in as_list(sv.full_F, K)]
                        if self.base["solver"] == "MMSEIASolver" else None,
-                       FFalt=None, Flist=False)
-            sv2 = self.new_solver()
-            own_rng(sv2, 500 + 5 + self.base["s"])
-            sv2.randomizeF(self.base["Ns"])
-            rnd = [np.array(x) for x in as_list(sv2.F, K)]
-            self._fresh = (sol, rnd)
-        return self._fresh
+                       FFalt=None, Flist=False, chan=chan, dirty=False, alias=None)
+            if self._rnd is None:
+                sv2 = self.new_solver()
+                own_rng(sv2, 500 + 5 + self.base["s"])
+                sv2.randomizeF(self.base["Ns"])
+                self._rnd = [np.array(x) for x in as_list(sv2.F, K)]
+            self._fresh[chan] = (sol, self._rnd)
+        return self._fresh[chan]
 
     def model(self, hist):
         sol, rnd = self.fresh()
@@ -716,6 +831,13 @@ class E3Job:
         for ev in hist:
             md = dict(md)
             t = ev[0]
+            if t == "chan":
+                md["chan"] = md["chan"] + (ev,)
+                md["dirty"] = True          # derived receive filters legitimately outdated
+                continue
+            if t != "read":
+                md["dirty"] = False         # every solver-side mutator recomputes them on demand
+                md["alias"] = None
             if t == "P":
                 md["P"] = (np.ones(K) if ev[1] is None else
                            np.array(PV_EVENT[:K]) if ev[1] == "vec" else np.ones(K) * float(ev[1]))
@@ -739,6 +861,8 @@ class E3Job:
                 md["P"] = Pv
                 md["FFalt"] = None
                 md["Flist"] = False
+                if ev[1] == "mutate_after":
+                    md["alias"] = dict(P=Pv * 9.0, FF0=md["FFx"][0] * 2.0)
             elif t == "setWH":
                 md["WH"] = payload(self.base, "WH")
             elif t == "setW":
@@ -749,7 +873,7 @@ class E3Job:
                 md["FFx"] = md["FFalt"] = None
                 md["Flist"] = False
             elif t == "solve":
-                md = dict(sol)
+                md = dict(self.fresh(md["chan"])[0])
         md["FF"] = md["FFx"] if md["FFx"] is not None else [md["F"][k] * math.sqrt(md["P"][k])
                                                             for k in range(K)]
         return md
@@ -774,7 +898,9 @@ class E3Job:
         if st["error"] is not None:
             e = st["error"]
             bad = st.get("failed_event")
-            if bad is not None and bad[0] == "read":
+            if isinstance(e, InputMutated):
+                sig = (evkind(bad) if bad is not None else "solve", "mutates_caller_input", e.what)
+            elif bad is not None and bad[0] == "read":
                 # a view that cannot even be read: attributed to the last mutator (or to the
                 # list-valued precoders that make full_F malformed)
                 muts = [x for x in hist[:-1] if x[0] != "read"]
@@ -793,6 +919,15 @@ class E3Job:
         sv = st["solver"]
         chk.outcome("cache_population", st["caches"])
         md = self.model(hist)
+        hkl, Hbig = self.heff(md["chan"])
+        if md["chan"]:
+            chk.outcome("channel_state", tuple(e[1] for e in md["chan"]) + (md["dirty"],))
+        # ---- after a solve: every E1 relation for the CURRENT channel
+        if ev is None or ev[0] == "solve":
+            b = self.base
+            chk.count("eval_e3_post_solve_relation_sets")
+            check_solution(chk, sv, Hbig, dict(case, solver=b["solver"], K=K, Nr=b["Nr"], Nt=b["Nt"],
+                                               Ns=b["Ns"], P=b["P0"], init=b["init"]), b["n"])
         # ---- read every public view (this populates caches: digest was taken before)
         obs = {}
         for v in ("F", "P", "Ns", "W_H", "W", "full_F", "full_W_H", "full_W"):
@@ -835,7 +970,8 @@ class E3Job:
             if Po.shape != (K,) or Po.dtype == object:
                 flag("P", "wrong_shape", repr(obs["P"][1]), md["P"])
             elif not same(Po.astype(float), md["P"], 4 * EPS):
-                flag("P", stale_or("P", "wrong_value"), Po, md["P"])
+                al = md["alias"] is not None and same(Po.astype(float), md["alias"]["P"], 4 * EPS)
+                flag("P", "aliases_caller_input" if al else stale_or("P", "wrong_value"), Po, md["P"])
         if "Ns" not in bad:
             want = [x.shape[1] for x in md["F"]]
             try:
@@ -878,11 +1014,18 @@ class E3Job:
                     chk.count("tolerated_mmse_full_F_kept_within_new_power")
                 else:
                     kind = stale_or("full_F", "wrong_value")
+                    if md["alias"] is not None and same(lists["full_F"][0], md["alias"]["FF0"]):
+                        kind = "aliases_caller_input"
                     flag("full_F", kind, lists["full_F"][0], want[0], cause if kind != "stale" else None)
         # full_W_H against ITS OBSERVED inputs  (== the identity relation)
         usable = ("full_F" not in bad or bad["full_F"][0] != "wrong_shape") and lists["full_F"] is not None \
             and lists["W_H"] is not None and "full_F" in obs and obs["full_F"][0] == "ok"
-        if "full_W_H" in bad and not usable:
+        if md["dirty"]:
+            # between a channel change and the next solver-side call the solver has not been told
+            bad.pop("full_W_H", None)
+            bad.pop("full_W", None)
+            chk.count("full_W_H_not_judged_between_channel_change_and_next_solver_call")
+        elif "full_W_H" in bad and not usable:
             del bad["full_W_H"]          # consequence of the malformed full_F
             bad.pop("full_W", None)
             chk.count("consequential_full_W_H_not_evaluated")
@@ -893,7 +1036,7 @@ class E3Job:
                 want, kmax = [], 1.0
                 try:
                     for k in range(K):
-                        Heq = lists["W_H"][k] @ self.hkl(k, k) @ lists["full_F"][k]
+                        Heq = lists["W_H"][k] @ hkl(k, k) @ lists["full_F"][k]
                         kmax = max(kmax, families.cond(Heq))
                         want.append(np.linalg.solve(Heq, lists["W_H"][k]))
                 except Exception:
@@ -907,7 +1050,7 @@ class E3Job:
                     flag("full_W_H", stale_or("full_W_H", "inconsistent_with_full_F_and_W_H"),
                          lists["full_W_H"][0], want[0])
         if "full_W" not in bad and "full_W_H" in obs and obs["full_W_H"][0] == "ok" \
-                and lists["full_W_H"] is not None:
+                and lists["full_W_H"] is not None and not md["dirty"]:
             want = [x.conj().T for x in lists["full_W_H"]]
             if lists["full_W"] is None or [x.shape for x in lists["full_W"]] != [x.shape for x in want]:
                 flag("full_W", "wrong_shape", shapes_of(obs["full_W"][1]), [x.shape for x in want])
@@ -928,7 +1071,7 @@ class E3Job:
             chk.count("states_all_views_coherent")
         # ---- fresh-solver differential: the library on a fresh object agrees with the model
         if not md["Flist"]:
-            f = self.new_solver()
+            f = self.new_solver(md["chan"])
             if md["FFx"] is not None:
                 f.set_precoders(full_F=obj_array([np.array(x) for x in md["FFx"]]), P=np.array(md["P"]))
             else:
@@ -944,7 +1087,7 @@ class E3Job:
                 kmax = 1.0
                 want = []
                 for k in range(K):
-                    Heq = md["WH"][k] @ self.hkl(k, k) @ md["FF"][k]
+                    Heq = md["WH"][k] @ hkl(k, k) @ md["FF"][k]
                     kmax = max(kmax, families.cond(Heq))
                     want.append(np.linalg.solve(Heq, md["WH"][k]))
                 if kmax <= 1e6 and not same_lists(as_list(f.full_W_H, K), want, VIEW_TOL * kmax):
@@ -963,7 +1106,15 @@ class E3Job:
             return job.build(tuple(hist))
 
         def enabled(hist, st):
-            return [] if st["error"] is not None else EVENTS
+            if st["error"] is not None:
+                return []
+            # a getter read twice with no mutator in between is the same state (idempotent): pruned
+            recent = set()
+            for e in reversed(hist):
+                if e[0] != "read":
+                    break
+                recent.add(e)
+            return [e for e in job.events if e not in recent]
 
         def invariant(hist, st):
             case = dict(part="E3", base=job.base, history=[list(e) for e in hist])
@@ -1012,7 +1163,7 @@ def main(chk: Check):
     chk.extra.update(dict(UNIT_TOL=UNIT_TOL, POWER_RTOL=POWER_RTOL, MMSE_POWER_RTOL=MMSE_POWER_RTOL,
                           IDENT_C=IDENT_C, KAPPA_MAX=KAPPA_MAX, COST_RTOL=COST_RTOL, COST_ATOL=COST_ATOL,
                           VIEW_TOL=VIEW_TOL, e3_depth=4 if tier == "thorough" else 3,
-                          e3_events=len(EVENTS), e3_bases=len(e3_bases(tier)),
+                          e3_events=len(events(tier)), e3_bases=len(e3_bases(tier)),
                           e1_cases=len(e1_cases(tier))))
     jobs = all_jobs(tier)
 
